@@ -71,7 +71,8 @@ def detect(tier):
         finally:
             subprocess.run(["git", "-C", "/repo", "checkout", "--", "."])
         meta = json.load(open(f"{d}/meta.json"))
-        meta["detection"] = {"tier": tier, "how": "git -C /repo apply patch.diff; ./check <id>; git -C /repo checkout -- .", "checks": det}
+        seed = os.environ.get("VERIF_SEED", "0")
+        meta["detection" if seed == "0" else f"detection_seed{seed}"] = {"tier": tier, "seed": int(seed), "how": "git -C /repo apply patch.diff; ./check <id>; git -C /repo checkout -- .", "checks": det}
         json.dump(meta, open(f"{d}/meta.json", "w"), indent=1)
     # restore generated Coq files that a failing translator removed
     subprocess.run(["./setup.sh"], cwd="/verif", capture_output=True)
